@@ -256,16 +256,12 @@ def lvalue_path(fa, place, bi, si):
     locals, else the param/field path of its origin"""
     if place["p"] and fa.upvar_name(place) is None and fa.body.local_name(place["l"]):
         l = place["l"]
-        # a named local that merely holds a parameter / captured variable (`self` moved out of the
-        # coroutine state) is that parameter
-        if not (1 <= l <= fa.body.arg_count):
-            ds = [d for d in fa.body.defs.get(l, []) if not d[3]["p"]]
-            if len(ds) == 1 and ds[0][0] == "assign" and ds[0][4]["k"] == "use":
-                src = op_place(ds[0][4]["op"])
-                if src is not None and fa.upvar_name(src) is not None and not fa.upvar_name(src)[1]:
-                    alias = path_of(lvalue_term(fa, place, bi, si))
-                    if alias is not None:
-                        return alias
+        # a named local that merely holds (a reborrow of) a parameter / captured variable — `self`
+        # moved out of the coroutine state, the `self` of a spliced helper — is that parameter
+        if not (1 <= l <= fa.body.arg_count) and not fa._mut_borrowed(l):
+            alias = path_of(lvalue_term(fa, place, bi, si))
+            if alias is not None:
+                return alias
         parts = [fa.body.local_name(l) if 1 <= l <= fa.body.arg_count else fa.type_name(l)]
         for e in place["p"]:
             if isinstance(e, dict) and "f" in e:
@@ -909,6 +905,35 @@ def named_local(fa, operand, bi, pos):
             return None
         p = op_place(ds[0][4]["op"])
     return None
+
+
+def resolve_mutlocal(fa, term):
+    """A user variable whose address escapes by `&mut` is named after its type in terms
+    (`~Header.key_pair`): its fields may be rewritten through the reference.  For provenance
+    questions this returns the same field path applied to the variable's INITIAL value (its first
+    definition), or None if the term is not rooted in such a variable / the variable is ambiguous.
+    Callers must separately check that the field in question is not assigned afterwards."""
+    from .analysis import project_field
+    t = strip(term)
+    fields = []
+    while t[0] == "field":
+        fields.append(t[2])
+        t = strip(t[1])
+    if not (t[0] == "param" and isinstance(t[1], str) and t[1].startswith("~")):
+        return None
+    cands = [l["i"] for l in fa.body.locals if l.get("name") and not (1 <= l["i"] <= fa.body.arg_count) and fa._mut_borrowed(l["i"]) and fa.type_name(l["i"]) == t[1]]
+    if len(cands) != 1:
+        return None
+    ds = sorted([d for d in fa.body.defs.get(cands[0], []) if not d[3]["p"]], key=lambda d: (d[1], d[2] if d[2] is not None else 10**6))
+    if not ds:
+        return None
+    d = ds[0]
+    base = fa.origin_rvalue(d[4], d[1], d[2]) if d[0] == "assign" else (fa.origin_call(d[1], d[4]) if d[0] == "call" else None)
+    if base is None:
+        return None
+    for f in reversed(fields):
+        base = project_field(base, f)
+    return base
 
 
 def named_local_origin(fa, name):
